@@ -762,6 +762,11 @@ func (vfs *MemFS) mkdirAll(path string, perm fs.FileMode) (retry bool, err error
 	parent.mu.Lock()
 	defer parent.mu.Unlock()
 
+	if parent.removed && parent == vfs.rootNode {
+		// the root directory of a view, removed through another view : a new walk would end here again.
+		return false, &fs.PathError{Op: op, Path: path, Err: vfs.err.NoSuchDir}
+	}
+
 	if parent.removed || parent.children[pi.Part()] != nil || vfs.renameSeqNow() != seq {
 		// the directory has been removed or moved, or the name created, since the path walk.
 		return true, nil
